@@ -2,7 +2,10 @@ pub mod common;
 pub mod c01;
 pub mod c02;
 pub mod c03;
+pub mod c05;
+pub mod c06;
 pub mod c14;
+pub mod c18;
 
 use crate::report::{Local, Report};
 
@@ -14,6 +17,9 @@ pub fn table() -> Vec<(&'static str, RunFn, ReplayFn)> {
         ("C01", c01::run as RunFn, c01::replay as ReplayFn),
         ("C02", c02::run as RunFn, c02::replay as ReplayFn),
         ("C03", c03::run as RunFn, c03::replay as ReplayFn),
+        ("C05", c05::run as RunFn, c05::replay as ReplayFn),
+        ("C06", c06::run as RunFn, c06::replay as ReplayFn),
         ("C14", c14::run as RunFn, c14::replay as ReplayFn),
+        ("C18", c18::run as RunFn, c18::replay as ReplayFn),
     ]
 }
